@@ -72,6 +72,12 @@ func c06Base(name string, wrkRec, bcnRec uint64, govFees bool, failedGov ...bool
 		s.Actions = append(s.Actions,
 			govOnce("gov(wrk:fees=11/4/6)", model.WrkParams, model.AnchorParams{FeeReg: 11, FeeRec: 4, FeePur: 6, Denom: mc.Nund, Default: 2, Max: 4}))
 		s.Prefix = append(s.Prefix, "gov(wrk:fees=11/4/6)")
+		// ... and the chain then goes through the in-place software upgrade, which moves the fee schedule from
+		// x/params into the module stores: the schedule set by governance stays in force
+		up := upgradeAct()
+		up.Enabled = nil
+		s.Actions = append(s.Actions, up)
+		s.Prefix = append(s.Prefix, up.Name)
 	}
 	return s
 }
